@@ -76,7 +76,15 @@ def _run_watchdog(prop, idxs, hs, jobs, limit):
                 p.join()
                 del running[i]
             elif not p.is_alive():
-                results[i] = None
+                # the child may have delivered its result and exited between the poll above and this test: look once more before calling it dead
+                p.join()
+                if pc.poll(0.5):
+                    try:
+                        results[i] = pc.recv()
+                    except EOFError:
+                        results[i] = None
+                else:
+                    results[i] = None
                 del running[i]
             elif time.time() - t0 > limit:
                 p.kill()
